@@ -168,7 +168,7 @@ def resentFirst (tr : List Ev) : Bool :=
     | some (_, e, r, _) =>
       if r = 0 then wireCount tr s == 0 else
       let after := afterFailure tr
-      if after.any (fun ev => match ev with | .apiClose _ => true | _ => false) then true else
+      if after.any (fun ev => match ev with | .apiClose _ | .apiReset _ => true | _ => false) then true else
       match nextOpened after with
       | some (c, t) => if t < e then firstWireOn after c == some s else true
       | none => true
